@@ -48,14 +48,26 @@ static __thread int t_hobj, t_hcls;
 static __thread long t_hoff;
 static __thread uint64_t t_rng;
 static __thread int t_rmw_obj = -1, t_rmw_cls; static __thread long t_rmw_off;
-static __thread const volatile void *t_rmw_addr;
+static __thread const volatile void *t_rmw_addr; static __thread uint64_t t_rmw_val; static __thread unsigned t_rmw_size;
 static __thread const volatile void *t_last_load_addr; static __thread uint64_t t_last_load_val;
 static __thread int t_in_rt;
 
+#include <sys/syscall.h>
+#define MAXT 1024
+static long g_ktid[MAXT];
+long vrt_ktid(int vtid) { return vtid >= 0 && vtid < MAXT ? g_ktid[vtid] : -1; }
+int vrt_tid_of_ktid(long k)
+{
+	int n = atomic_load(&g_ntid);
+	for (int i = 0; i < n && i < MAXT; i++) if (g_ktid[i] == k) return i;
+	return -1;
+}
+int vrt_nthreads(void) { return atomic_load(&g_ntid); }
 int vrt_tid(void)
 {
 	if (t_tid < 0) {
 		t_tid = atomic_fetch_add(&g_ntid, 1);
+		if (t_tid < MAXT) g_ktid[t_tid] = (long)syscall(SYS_gettid);
 		t_rng = (g_seed + 1) * 0x9E3779B97F4A7C15ull + (uint64_t)(t_tid + 1) * 0xBF58476D1CE4E5B9ull;
 	}
 	return t_tid;
@@ -164,7 +176,7 @@ static void rt_pre(struct dispatch_verif_site_s *s, const volatile void *addr)
 	perturb();
 	if (g_steer) g_steer(s, addr, o);
 	t_in_rt = 0;
-	if (o < 0 || atomic_load(&g_paused)) return;
+	if ((o < 0 && c < VRT_CLASS_ANY) || atomic_load(&g_paused)) return;   /* classes >= VRT_CLASS_ANY: any address */
 	pthread_mutex_lock(&g_lock);
 	t_held = 1; t_hobj = o; t_hoff = off; t_hcls = c;
 }
@@ -181,6 +193,7 @@ static void rt_post(struct dispatch_verif_site_s *s, const volatile void *addr,
 			if (r) {
 				r->kind = VRT_ATOMIC; r->site = s; r->addr = t_rmw_addr;
 				r->obj = t_rmw_obj; r->off = t_rmw_off; r->cls = t_rmw_cls; r->ok = 1;
+				r->oldv = r->newv = t_rmw_val; r->size = t_rmw_size;   /* the value the loop decided on */
 			}
 			pthread_mutex_unlock(&g_lock);
 			t_rmw_obj = -1;
@@ -204,7 +217,7 @@ static void rt_post(struct dispatch_verif_site_s *s, const volatile void *addr,
 	if (isload) { t_last_load_addr = addr; t_last_load_val = ov; }
 	else t_last_load_addr = NULL;
 	if (isload || (s->dvs_op[0] == 'c' && !ok)) {
-		t_rmw_obj = t_hobj; t_rmw_off = t_hoff; t_rmw_cls = t_hcls; t_rmw_addr = addr;
+		t_rmw_obj = t_hobj; t_rmw_off = t_hoff; t_rmw_cls = t_hcls; t_rmw_addr = addr; t_rmw_val = ov; t_rmw_size = size;
 	} else {
 		t_rmw_obj = -1;
 	}
@@ -230,14 +243,17 @@ static void rt_probe(const char *kind, const volatile void *obj, long a, long b)
 	pthread_mutex_unlock(&g_lock);
 }
 
-void vrt_api(const char *name, int obj, long a, long b, long c)
+uint64_t vrt_api(const char *name, int obj, long a, long b, long c)
 {
-	if (atomic_load(&g_paused)) return;
+	uint64_t seq = 0;
+	if (atomic_load(&g_paused)) return 0;
 	pthread_mutex_lock(&g_lock);
 	vrt_rec_t *r = newrec();
-	if (r) { r->kind = VRT_API; r->name = name; r->obj = obj; r->a = a; r->b = b; r->c = c; }
+	if (r) { r->kind = VRT_API; r->name = name; r->obj = obj; r->a = a; r->b = b; r->c = c; seq = r->seq; }
+	else seq = ++g_seq;
 	t_last_load_addr = NULL;
 	pthread_mutex_unlock(&g_lock);
+	return seq;
 }
 
 void vrt_mark(const char *name, long a, long b, long c)
